@@ -80,6 +80,35 @@ def run_point(state, markers):
     return frozenset(state), errors
 
 
+def point_outcomes(state, markers):
+    """All (new_state, errors) reachable by processing the markers of one time point in SOME order. Names are
+    independent of each other, and within one name only the choice of which marker comes first matters (the others
+    are repeats), so this is exactly the set over all permutations, without enumerating them."""
+    by_key = {}
+    for _, m in markers:
+        by_key.setdefault(key(m["name"]), []).append(m)
+    results = {(frozenset(state), ())}
+    for k, ms in by_key.items():
+        firsts = {}
+        for idx, m in enumerate(ms):
+            firsts.setdefault((m["kind"], m["name"]), idx)
+        new = set()
+        for idx in firsts.values():
+            first, others = ms[idx], ms[:idx] + ms[idx + 1:]
+            for st_, errs in results:
+                st2, e = set(st_), list(errs)
+                if first["kind"] == "Onset":
+                    st2.add(k)
+                elif k not in st2:
+                    e.append("def/" + first["name"].casefold())
+                elif first["kind"] == "Offset":
+                    st2.discard(k)
+                e += [o["kind"].casefold() for o in others]
+                new.add((frozenset(st2), tuple(sorted(e))))
+        results = new
+    return results
+
+
 def possible_outcomes(rows, order_free=True, limit=5000):
     """Set of possible error multisets (as sorted tuples). Within one effective time point the order of markers is
     not fixed by the statement: every order is allowed (order_free) and the implementation must produce one."""
@@ -87,18 +116,16 @@ def possible_outcomes(rows, order_free=True, limit=5000):
     states = {(frozenset(), ()): None}
     for t, markers in pts.items():
         new = {}
-        perms = itertools.permutations(markers) if (order_free and len(markers) <= 5) else [tuple(markers)]
-        seen_perm = set()
-        for perm in perms:
-            sig = tuple((m["kind"], m["name"]) for _, m in perm)
-            if sig in seen_perm:
-                continue
-            seen_perm.add(sig)
-            for (state, errs) in states:
-                ns, e = run_point(state, perm)
+        for (state, errs) in states:
+            if order_free:
+                outs = point_outcomes(state, markers)
+            else:
+                ns, e = run_point(state, tuple(markers))
+                outs = {(ns, tuple(e))}
+            for ns, e in outs:
                 new[(ns, tuple(sorted(errs + tuple(e))))] = None
-                if len(new) > limit:
-                    break
+            if len(new) > limit:
+                return None         # too many reachable outcomes to enumerate: the caller treats the case as undecided
         states = new
     return {errs for (_, errs) in states}
 
